@@ -37,3 +37,7 @@ pub mod parking_lot {
 /// Probe: number of times zippychord's 10000-tick contingency reset changed its state.
 pub static ZCH_EFFECTIVE_FORCED_RESETS: ::core::sync::atomic::AtomicU64 =
     ::core::sync::atomic::AtomicU64::new(0);
+
+/// Probe: number of times `do_live_reload` was entered.
+pub static LIVE_RELOAD_ATTEMPTS: ::core::sync::atomic::AtomicU64 =
+    ::core::sync::atomic::AtomicU64::new(0);
